@@ -109,8 +109,8 @@ pub fn run_proof<G: Cv>(env: &Env<G>, prog: &Program, seed: u64) -> Out {
     let p2 = R1CSProof::<G>::from_bytes(&e1).unwrap();
     let v1 = program::verify::<G>(prog, &env.pc, &env.bp, seed, Dev::None, &pr.commitments, &p1, program::LABEL).result.is_ok();
     let v2 = program::verify::<G>(prog, &env.pc, &env.bp, seed, Dev::None, &pr.commitments, &p2, program::LABEL).result.is_ok();
-    if !(v1 && v2) {
-        out.bad.push((key("verdict before/after round trip"), "accept / accept".into(), format!("{} / {}", v1, v2)));
+    if v1 != v2 {
+        out.bad.push((key("verdict before/after round trip"), "same verdict".into(), format!("{} / {}", v1, v2)));
     }
     // length law
     let k = gates.max(1).next_power_of_two().trailing_zeros() as usize;
